@@ -367,7 +367,12 @@ def check(case, rec):
         if stored_pts:
             picks.append(stored_pts[case["sel"][0] % len(stored_pts)])
         for p in picks:
-            _expect("getSubTree-leaf", fm.getSubTree(*p), leaf["cbits"] + leaf["pbits"], f"full-depth point={p}; {ctx}")
+            # (below a leaf element there is no fiber: the statement's sum is empty there; the element's own
+            # coordinate + payload bits, which the library reports, is the other natural reading)
+            got_leaf = fm.getSubTree(*p)
+            if type(got_leaf) is not int or got_leaf not in (0, leaf["cbits"] + leaf["pbits"]):
+                raise Violation("getSubTree-leaf", f"getSubTree at the full-depth point {p} = {got_leaf!r}, expected 0 or "
+                                f"one element ({leaf['cbits'] + leaf['pbits']} bits); {ctx}")
 
         # -- the sub-tree walks must not have changed what a rank / the tensor holds
         ranks_and_tensor("-again")
@@ -380,7 +385,11 @@ def check(case, rec):
     late = case.get("late")
     if late and not sp:
         p = allpts[late[0] % len(allpts)]
-        if late[1] % 3 == 2 and d >= 2 and t.getRoot().payloads:
+        if late[0] % 4 == 3:
+            # the tensor gets another root altogether (the original tree without its first top-level element)
+            t.setRoot(build.build_fiber(dict(tspec, tree=tspec["tree"][1:], shape=list(shape))))
+            rec.cls("late-setRoot")
+        elif late[1] % 3 == 2 and d >= 2 and t.getRoot().payloads:
             t.getRoot().payloads[late[0] % len(t.getRoot().payloads)].clear()
             rec.cls("late-clear")
         else:
